@@ -16,10 +16,18 @@ ORDER = ["C03", "C16", "C04", "C09", "C10", "C14", "C01", "C08", "C15", "C11", "
 FILES = ["src/parser.rs", "src/element.rs", "src/element/identifier.rs", "src/element/macro_rule.rs", "src/necessity.rs", "src/options.rs", "src/main.rs", "src/args.rs"]
 
 def sh(cmd, cwd=None, timeout=3600):
+    # own session, so that a timeout can kill the whole process group (cargo -> test binary, check -> workers)
+    import signal
+    p = subprocess.Popen(cmd, shell=True, executable='/bin/bash', cwd=cwd, stdout=subprocess.PIPE, stderr=subprocess.STDOUT, text=True, start_new_session=True)
     try:
-        p = subprocess.run(cmd, shell=True, executable='/bin/bash', cwd=cwd, stdout=subprocess.PIPE, stderr=subprocess.STDOUT, text=True, timeout=timeout)
-        return p.returncode, p.stdout
+        out, _ = p.communicate(timeout=timeout)
+        return p.returncode, out
     except subprocess.TimeoutExpired:
+        try:
+            os.killpg(p.pid, signal.SIGKILL)
+        except ProcessLookupError:
+            pass
+        p.communicate()
         return 124, "timeout"
 
 # (name, regex, replacement) - applied to one occurrence on one line
